@@ -76,6 +76,7 @@ HOME = {
     ("src/quadwt/mod.rs", "RSQVector"): "src/qvector/rs_qvector.rs",
     ("src/quadwt/huffqwt.rs", "RSQVector"): "src/qvector/rs_qvector.rs",
     ("src/binwt/mod.rs", "RSWide"): "src/bitvector/rs_wide.rs",
+    ("src/darray/mod.rs", "select_in_word"): "src/utils/mod.rs",
     ("src/binwt/mod.rs", "PrefixCode"): "src/quadwt/huffqwt.rs",
     ("src/darray/mod.rs", "BitVector"): "src/bitvector/mod.rs",
     ("src/darray/mod.rs", "select_in_word"): "src/utils/mod.rs",
@@ -95,6 +96,7 @@ TARGETS = list(GL.TARGETS) + [
     ("src/bitvector/mod.rs", "BitVector", "len", "g_bv_len", {}),
     ("src/bitvector/mod.rs", "BitVector", "get_unchecked", "g_bv_get_unchecked", {}),
     ("src/bitvector/mod.rs", "BitVector", "get", "g_bv_get", {}),
+    ("src/bitvector/mod.rs", "BitVector", "get_word", "g_bv_get_word", {}),
     # ---- group rsn2: RSNarrow queries
     ("src/bitvector/rs_narrow.rs", "RSNarrow", "rank1_unchecked", "g_rsn_rank1_unchecked", {}),
     ("src/bitvector/rs_narrow.rs", "RSNarrow", "rank1", "g_rsn_rank1", {}),
@@ -228,6 +230,29 @@ TARGETS = list(GL.TARGETS) + [
     ("src/binwt/mod.rs", "WaveletTree", "rank", "g_hwt_rank", {"T": "@T", "BRS": "RSWide", "COMPRESSED": True}),
     ("src/binwt/mod.rs", "WaveletTree", "select", "g_hwt_select", {"T": "@T", "BRS": "RSWide", "COMPRESSED": True}),
     ("src/binwt/mod.rs", "WaveletTree", "select_unchecked", "g_hwt_select_unchecked", {"T": "@T", "BRS": "RSWide", "COMPRESSED": True}),
+    # ---- group da: DArray (select through the inventories; SELECT0_SUPPORT false / true)
+    ("src/darray/mod.rs", "DArray", "select", "g_da_select_ones", {"BIT": True}),
+    ("src/darray/mod.rs", "DArray", "select", "g_da_select_zeros", {"BIT": False}),
+    ("src/darray/mod.rs", "DArray", "count_ones", "g_da1_count_ones", {"SELECT0_SUPPORT": False}),
+    ("src/darray/mod.rs", "DArray", "count_zeros", "g_da1_count_zeros", {"SELECT0_SUPPORT": False}),
+    ("src/darray/mod.rs", "DArray", "len", "g_da1_len", {"SELECT0_SUPPORT": False}),
+    ("src/darray/mod.rs", "DArray", "is_empty", "g_da1_is_empty", {"SELECT0_SUPPORT": False}),
+    ("src/darray/mod.rs", "DArray", "get", "g_da1_get", {"SELECT0_SUPPORT": False}),
+    ("src/darray/mod.rs", "DArray", "get_unchecked", "g_da1_get_unchecked", {"SELECT0_SUPPORT": False}),
+    ("src/darray/mod.rs", "DArray", "select1", "g_da1_select1", {"SELECT0_SUPPORT": False, "BIT": True}),
+    ("src/darray/mod.rs", "DArray", "select1_unchecked", "g_da1_select1_unchecked", {"SELECT0_SUPPORT": False, "BIT": True}),
+    ("src/darray/mod.rs", "DArray", "select0", "g_da1_select0", {"SELECT0_SUPPORT": False, "BIT": False}),
+    ("src/darray/mod.rs", "DArray", "select0_unchecked", "g_da1_select0_unchecked", {"SELECT0_SUPPORT": False, "BIT": False}),
+    ("src/darray/mod.rs", "DArray", "count_ones", "g_da0_count_ones", {"SELECT0_SUPPORT": True}),
+    ("src/darray/mod.rs", "DArray", "count_zeros", "g_da0_count_zeros", {"SELECT0_SUPPORT": True}),
+    ("src/darray/mod.rs", "DArray", "len", "g_da0_len", {"SELECT0_SUPPORT": True}),
+    ("src/darray/mod.rs", "DArray", "is_empty", "g_da0_is_empty", {"SELECT0_SUPPORT": True}),
+    ("src/darray/mod.rs", "DArray", "get", "g_da0_get", {"SELECT0_SUPPORT": True}),
+    ("src/darray/mod.rs", "DArray", "get_unchecked", "g_da0_get_unchecked", {"SELECT0_SUPPORT": True}),
+    ("src/darray/mod.rs", "DArray", "select1", "g_da0_select1", {"SELECT0_SUPPORT": True, "BIT": True}),
+    ("src/darray/mod.rs", "DArray", "select1_unchecked", "g_da0_select1_unchecked", {"SELECT0_SUPPORT": True, "BIT": True}),
+    ("src/darray/mod.rs", "DArray", "select0", "g_da0_select0", {"SELECT0_SUPPORT": True, "BIT": False}),
+    ("src/darray/mod.rs", "DArray", "select0_unchecked", "g_da0_select0_unchecked", {"SELECT0_SUPPORT": True, "BIT": False}),
 ]
 
 # group -> (source file, owner types or None, first index in TARGETS that belongs to T5)
@@ -242,6 +267,7 @@ GROUPS = {
     "qwt": ("src/quadwt/mod.rs", None),
     "hqwt": ("src/quadwt/huffqwt.rs", None),
     "wt": ("src/binwt/mod.rs", None),
+    "da": ("src/darray/mod.rs", None),
 }
 # which generated files a group's file must import (T3 leaves and earlier T5 groups)
 GROUP_IMPORTS = {
@@ -253,11 +279,12 @@ GROUP_IMPORTS = {
     "qwt": ["FnsRsq"],
     "hqwt": ["FnsRsq"],
     "wt": ["FnsBv", "FnsRsw2"],
+    "da": ["LeavesUtils", "FnsBv"],
     "rsq": ["LeavesUtils", "LeavesSB", "LeavesLine", "LeavesQV", "FnsRss", "FnsQv2"],
 }
 
 GL.RESERVED |= set("""while_loop for_loop iter_loop Next Brk Ret Done Retd len concat ounwrap wshl wshr fsqrt fuel Some
-    None option step fin r s v zwrap ziadd zisub zimul zshamt Z left right inl inr pair fst snd S O nil cons xH xO xI N0 Npos
+    None option step fin r s v zwrap ziadd zisub zimul zineg zshamt Z left right inl inr pair fst snd S O nil cons xH xO xI N0 Npos
     Z0 Zpos Zneg eq_refl conj I opt_ltb nthN wT for_loop_rev checked_add obsearch_fst""".split())
 
 
@@ -458,8 +485,13 @@ class Parser5(Parser):
                 if self.at("<"):
                     depth = 0
                     while True:
-                        x = self.peek().text
-                        depth += {"<": 1, ">": -1, ">>": -2}.get(x, 0) if self.peek().kind == "op" else 0
+                        tk = self.peek()
+                        x = tk.text if tk.kind == "op" else ""
+                        if x == ">>" and depth == 1:
+                            # closes these arguments and one enclosing list: leave one `>` for the caller
+                            self.t[self.i] = GL.Tok("op", ">", tk.line, tk.pos)
+                            break
+                        depth += {"<": 1, ">": -1, ">>": -2}.get(x, 0)
                         self.i += 1
                         if depth <= 0:
                             break
@@ -479,8 +511,17 @@ class Parser5(Parser):
     def fn(self):
         self.expect("fn")
         name = self.ident()
-        if self.accept("<"):
-            self.fail("generic function")
+        if self.at("<"):
+            # const generic parameters of the function itself: monomorphised by the target's substitution
+            depth = 0
+            while True:
+                x = self.peek().text
+                depth += {"<": 1, ">": -1, ">>": -2}.get(x, 0) if self.peek().kind == "op" else 0
+                if self.peek().kind == "id" and x not in ("const", "bool", "usize") and not x.isupper():
+                    self.fail("generic function (only const generic parameters)")
+                self.i += 1
+                if depth <= 0:
+                    break
         self.expect("(")
         selfkind, params = None, []
         while not self.at(")"):
@@ -511,8 +552,32 @@ class Parser5(Parser):
             if tail is not None:
                 self.fail("syntax (expression not at the end of a block)")
             t = self.peek()
-            if t.kind == "id" and t.text in ("loop", "match", "continue"):
+            if t.kind == "id" and t.text in ("match", "continue"):
                 self.fail("`%s`" % t.text)
+            if t.kind == "op" and t.text == "#" and self.at("[", 1):
+                # attribute on a statement: #[cfg(pred)] keeps or drops the statement (target: x86_64, feature
+                # "prefetch" on); every other attribute is ignored
+                j = match_close(self.t, self.i + 1)
+                toks = [x.text for x in self.t[self.i + 2:j]]
+                self.i = j + 1
+                keep = True
+                if toks and toks[0] == "cfg":
+                    keep = self.cfg_eval(toks[2:-1])
+                if not keep:
+                    # skip the attributed statement: a block or up to `;`
+                    if self.at("{"):
+                        self.i = match_close(self.t, self.i) + 1
+                    else:
+                        while not self.at(";"):
+                            if self.at("{") or self.at("(") or self.at("["):
+                                self.i = match_close(self.t, self.i)
+                            self.i += 1
+                        self.i += 1
+                continue
+            if self.accept("loop"):
+                stmts.append(("while", ("bool", True), self.loop_body()))
+                self.accept(";")
+                continue
             if self.accept("while"):
                 c = self.expr_nostruct()
                 stmts.append(("while", c, self.loop_body()))
@@ -612,6 +677,20 @@ class Parser5(Parser):
                     self.fail("expression statement")
         return ("block", stmts, tail)
 
+    def cfg_eval(self, toks):
+        """cfg predicate for the configuration the checks build: x86_64, feature "prefetch" enabled"""
+        txt = "".join(toks)
+        m = re.fullmatch(r'target_arch="([a-z0-9_]+)"', txt)
+        if m:
+            return m.group(1) == "x86_64"
+        m = re.fullmatch(r'not\((.*)\)', txt)
+        if m:
+            return not self.cfg_eval([m.group(1)])
+        m = re.fullmatch(r'feature="([a-z0-9_]+)"', txt)
+        if m:
+            return m.group(1) == "prefetch"
+        self.fail("cfg predicate `%s`" % txt)
+
     def loop_body(self):
         """a loop body has type (): a trailing `if` / block without `;` is a statement"""
         _, stmts, tail = self.block()
@@ -661,8 +740,8 @@ class Parser5(Parser):
             return ("un", "!", self.unary())
         if self.accept("*"):
             return ("un", "*", self.unary())
-        if self.at("-"):
-            self.fail("unary `-`")
+        if self.accept("-"):
+            return ("un", "-", self.unary())
         e = self.primary()
         while True:
             if self.accept("."):
@@ -739,6 +818,7 @@ class FnT5(FnTranslator):
         _, self.selfkind, self.params, self.ret, self.body = p.fn()
         self.ret = self.sub_t(self.ret)
         self.params = [(n, self.sub_t(t)) for n, t in self.params]
+        self.rec_params = {}
         self.body_full = None
         if any(isinstance(v, bool) for v in self.cparams.values()):
             self.body_full = self.body
@@ -835,6 +915,9 @@ class FnT5(FnTranslator):
             return isinstance(t, tuple) and t[0] == "struct" and self.is_record(t, u.rel)
         if rec(fty):
             return self.leaf_paths(fty, u, prefix + (fname,))
+        if isinstance(fty, tuple) and fty[0] == "option" and rec(fty[1]):
+            # Option<struct with several fields>: one optional value per field (all Some or all None)
+            return [(pp, ("option", tt)) for pp, tt in self.leaf_paths(fty[1], u, prefix + (fname,))]
         if is_list(fty) and rec(fty[1]):
             # a slice of structs with several fields: one list per field of the struct
             return [(pp, ("slice", tt)) for pp, tt in self.leaf_paths(fty[1], u, prefix + (fname,))]
@@ -893,6 +976,10 @@ class FnT5(FnTranslator):
                 if k != len(names):
                     self.fail("field of a slice of structs")
                 return ("soa", tuple(path), t[1][1], self.struct_unit(t[1][1], rel).rel)
+            if isinstance(t, tuple) and t[0] == "option" and isinstance(t[1], tuple) and t[1][0] == "struct" and self.is_record(t[1], rel):
+                if k != len(names):
+                    self.fail("field of an optional struct")
+                return ("orecord", tuple(path), t[1][1], self.struct_unit(t[1][1], rel).rel)
             if isinstance(t, tuple) and t[0] == "option" and is_list(t[1]) and isinstance(t[1][1], tuple) and t[1][1][0] == "struct" \
                     and self.is_record(t[1][1], rel):
                 if k != len(names):
@@ -976,7 +1063,7 @@ class FnT5(FnTranslator):
                     if r[1] not in used:
                         used.append(r[1])
                     return
-                if r[0] == "osoa":
+                if r[0] in ("osoa", "orecord", "record"):
                     for pp in self.soa_leaves(r):
                         if pp not in used:
                             used.append(pp)
@@ -1027,6 +1114,14 @@ class FnT5(FnTranslator):
             k, clo = e[1][3]
             if clo[0] == "closure" and clo[1] in (["(", "x", ",", "_", ")"],) and clo[2] in (("un", "*", ("var", "x")), ("var", "x")):
                 return e[1][1], (k[1] if k[0] == "ref" else k)
+        return None
+
+    def popcnt_pattern(self, e):
+        """_popcnt64(x as i64) as usize -> x   (the x86_64 intrinsic counts the bits set in its argument)"""
+        if e[0] == "cast" and e[2] == "usize" and e[1][0] == "call" and e[1][1] == ["_popcnt64"] and len(e[1][3]) == 1:
+            a = e[1][3][0]
+            if a[0] == "cast" and a[2] == "i64":
+                return a[1]
         return None
 
     def soa_field(self, e, env):
@@ -1100,6 +1195,12 @@ class FnT5(FnTranslator):
         k = e[0]
         if k == "lit" and e[2] is None and isinstance(exp, str) and exp in SINT:
             return exp
+        if k == "field" and e[1][0] == "var" and e[1][1] in env and isinstance(env[e[1][1]][1], tuple) \
+                and env[e[1][1]][1][0] == "recparam":
+            lists = env[e[1][1]][1][3]
+            if e[2] not in lists:
+                self.fail("field `.%s` of the parameter `%s`" % (e[2], e[1][1]))
+            return lists[e[2]][1]
         if k == "field" and e[1][0] in ("var", "index", "ref", "un") and self.soa_field(e, env) is not None:
             return self.soa_field(e, env)[2]
         if k == "index" and e[1][0] in ("field", "ref") and self.soa_chain(e[1]) is not None:
@@ -1156,11 +1257,22 @@ class FnT5(FnTranslator):
             return "f64"
         if k == "cast" and self.sqrt_pattern(e):
             return e[2]
+        if k == "cast" and self.popcnt_pattern(e) is not None:
+            return "usize"
         if k == "try":
             ot = self.ty(e[1], None, env)
             if not (isinstance(ot, tuple) and ot[0] == "option"):
                 self.fail("`?` on a value of type %s" % (ot,))
             return ot[1]
+        if k == "un" and e[1] == "-":
+            t = self.ty(e[2], exp, env)
+            if t not in SINT:
+                self.fail("unary `-` at type %s" % (t,))
+            return t
+        if k == "path" and len(e[1]) == 3 and e[1][0] == "std" and e[1][1] in INT and e[1][2] == "MAX":
+            return e[1][1]
+        if self.popcnt_pattern(e) is not None:
+            return "usize"
         if k == "str":
             return "str"
         if k == "tfield":
@@ -1450,6 +1562,12 @@ class FnT5(FnTranslator):
     # ---- expressions
     def emit(self, e, exp, cx):
         k, env = e[0], cx.env
+        if k == "field" and e[1][0] == "var" and e[1][1] in env and isinstance(env[e[1][1]][1], tuple) \
+                and env[e[1][1]][1][0] == "recparam":
+            lists = env[e[1][1]][1][3]
+            if e[2] not in lists:
+                self.fail("field `.%s` of the parameter `%s`" % (e[2], e[1][1]))
+            return lists[e[2]][0], True
         if k == "field" and e[1][0] in ("var", "index", "ref", "un") and self.soa_field(e, env) is not None:
             lst, ix, _ = self.soa_field(e, env)
             if ix[0] == "term":
@@ -1463,7 +1581,8 @@ class FnT5(FnTranslator):
             if e[1] >= 2 ** (SINT[t] - 1):
                 self.fail("literal %s out of range for %s" % (e[3], t))
             return "%d%%Z" % e[1], True
-        if k == "cast" and e[2] != "f64" and not self.sqrt_pattern(e) and (e[2] in SINT or self.ty(e[1], None, env) in SINT):
+        if k == "cast" and e[2] != "f64" and not self.sqrt_pattern(e) and self.popcnt_pattern(e) is None \
+                and (e[2] in SINT or self.ty(e[1], None, env) in SINT):
             src = self.ty(e[1], None, env)
             if src is None:
                 self.fail("cast of an unsuffixed literal")
@@ -1477,6 +1596,16 @@ class FnT5(FnTranslator):
             self.fail("cast from %s to %s" % (src, e[2]))
         if k == "ref" or (k == "un" and e[1] == "*"):
             return self.emit(e[1] if k == "ref" else e[2], exp, cx)
+        if k == "un" and e[1] == "-":
+            t = self.ty(e, exp, env)
+            a = self.val(e[2], t, cx)
+            return app("zineg", str(SINT[t]), a), False
+        if k == "path" and len(e[1]) == 3 and e[1][0] == "std" and e[1][1] in INT and e[1][2] == "MAX":
+            return "%s - 1" % pow2(INT[e[1][1]]), True
+        if self.popcnt_pattern(e) is not None:
+            x = self.popcnt_pattern(e)
+            self.need(x, "u64", env, "u64")
+            return app("popcount", self.val(x, "u64", cx)), True
         if k == "tfield":
             t = self.ty(e[1], None, env)
             self.ty(e, exp, env)
@@ -1691,6 +1820,9 @@ class FnT5(FnTranslator):
         rel = getattr(sig, "rel", self.unit.rel)
         for a, (_, pt) in zip(args, sig.params):
             pt = self.norm(pt, rel) if isinstance(pt, tuple) else pt
+            if isinstance(pt, tuple) and pt[0] == "record":
+                vs += self.record_arg(a, pt, cx)
+                continue
             self.need(a, pt, cx.env, pt)
             vs.append(self.val(a, pt, cx))
         if getattr(sig, "wparam", False):
@@ -1700,6 +1832,31 @@ class FnT5(FnTranslator):
             self.needs_fuel = True
             fargs = ["fuel"] + fargs
         return app(sig.coq, *(fargs + vs)), False
+
+    def record_arg(self, a, pt, cx):
+        """an argument of a several-field struct type: `&self.f` (a struct field of self) or
+        `self.f.as_ref().unwrap()` (an optional one): one term per field, in declaration order"""
+        x = a
+        while x[0] == "ref" or (x[0] == "un" and x[1] == "*"):
+            x = x[1] if x[0] == "ref" else x[2]
+        opt = False
+        if x[0] == "mcall" and x[2] == "unwrap" and not x[3] and x[1][0] == "mcall" and x[1][2] == "as_ref" and not x[1][3]:
+            x, opt = x[1][1], True
+        names = self.chain(x) if x[0] == "field" else None
+        if not names:
+            self.fail("argument of struct type %s (only a struct field of self)" % pt[1])
+        r = self.resolve_chain(names)
+        if r[0] != ("orecord" if opt else "record") or r[2] != pt[1]:
+            self.fail("argument of struct type %s" % pt[1])
+        out = []
+        for pp in self.soa_leaves(r):
+            if opt:
+                t = self.fresh()
+                cx.lines.append("let! %s := %s in" % (t, app("ounwrap", self.path_coq[pp])))
+                out.append(t)
+            else:
+                out.append(self.path_coq[pp])
+        return out
 
     def emit_bin(self, e, exp, cx):
         _, op, A, B = e
@@ -2068,9 +2225,16 @@ class FnT5(FnTranslator):
             elif k == "call":
                 self.call_stmt(s[1], cx)
             elif k == "expr" and s[1][0] == "block":
-                if self.may_leave(s[1]):
-                    self.fail("nested block that leaves")
-                self.fail("statement-level block")
+                # a bare block statement (e.g. kept by #[cfg]): its statements run in place; its `let`s must not
+                # shadow anything used later
+                b = s[1]
+                if b[2] is not None and b[2][0] in ("if", "block", "iflet"):
+                    b = ("block", list(b[1]) + [("expr", b[2])], None)
+                if b[2] is not None:
+                    self.fail("statement-level block with a value")
+                if any(x[0] in ("let", "letdecl") and (x[1] if isinstance(x[1], str) else None) in cx.env for x in b[1]):
+                    self.fail("statement-level block that shadows a variable")
+                return self.seq0(list(b[1]) + list(rest), tail, cx, flow)
             else:
                 self.fail("statement `%s`" % k)
         return L + flow.end(self, tail, cx)
@@ -2268,8 +2432,24 @@ class FnT5(FnTranslator):
 
     def translate(self):
         cx = Cx(self, {}, 0)
-        ptys = [self.norm(t, self.unit.rel) if isinstance(t, tuple) else t for _, t in self.params]
-        names = [cx.bind(p, t) for (p, _), t in zip(self.params, ptys)]
+        ptys, names = [], []
+        for pn, pt in self.params:
+            nt = self.norm(pt, self.unit.rel) if isinstance(pt, tuple) else pt
+            if isinstance(nt, tuple) and nt[0] == "record":
+                # a parameter of a struct type with several fields: one parameter per field
+                lists = {}
+                for pp, tt in self.leaf_paths(("struct", nt[1]), self.world.unit(nt[2])):
+                    if len(pp) != 1:
+                        self.fail("parameter `%s` of a nested struct type" % pn)
+                    cn = "%s_%s" % (pn, pp[0])
+                    lists[pp[0]] = (cn, tt)
+                    ptys.append(tt)
+                    names.append(cn)
+                cx.env[pn] = (None, ("recparam", nt[1], nt[2], lists), 0)
+                self.rec_params[pn] = (nt[1], nt[2], lists)
+            else:
+                ptys.append(nt)
+                names.append(cx.bind(pn, nt))
         rett = self.norm(self.ret, self.unit.rel) if isinstance(self.ret, tuple) else self.ret
         self.ret = rett
         lines = self.seq(self.body[1], self.body[2], cx, FnFlow(rett))
@@ -2281,7 +2461,11 @@ class FnT5(FnTranslator):
         out = ["(* %s: %s%s *)" % (self.unit.rel, self.header, "   with " + ", ".join("%s = %s" % kv for kv in self.cparams.items()) if self.cparams else ""),
                "Definition %s %s : outcome %s :=" % (self.coq, " ".join(binders), paren(coq_type5(rett)))]
         text = "\n".join("  " + l for ln in lines for l in ln.split("\n"))
-        sig = Sig(self.coq, self.selfkind, list(zip([p for p, _ in self.params], ptys)), rett, list(self.paths))
+        sparams = []
+        for pn, pt in self.params:
+            nt = self.norm(pt, self.unit.rel) if isinstance(pt, tuple) else pt
+            sparams.append((pn, nt))
+        sig = Sig(self.coq, self.selfkind, sparams, rett, list(self.paths))
         sig.fuel, sig.rel, sig.wparam = self.needs_fuel, self.unit.rel, self.needs_w
         return "\n".join(out) + "\n" + text + ".\n", sig
 
